@@ -74,7 +74,7 @@ theorem mem_parkedTids {s : State} {t : Tid} :
 
 /-- `notify_one` either finds nobody parked and does nothing, or turns exactly one parked thread
     into a woken one -/
-theorem notifyOne_cases (s : State) (ch : Nat) :
+theorem notifyOne_casesW (s : State) (ch : Nat) :
     ((∀ t th, getT s t = some th → isParked th = false) ∧ notifyOne s ch = s) ∨
     (∃ w thw timed, getT s w = some thw ∧ thw.pc = .parked timed ∧
        notifyOne s ch = setT s w { thw with pc := .woken timed false }) := by
@@ -121,7 +121,7 @@ theorem locOK_of_not_holds {q : List Nat} {nc : Nat} {qm : Option Tid} {u : Tid}
 theorem J0_setT {s : State} (hJ : J0 s) {t : Tid} {th : Thread} (hg : getT s t = some th)
     (s1 : State) (th' : Thread)
     (hthr : s1.threads = s.threads) (hlk : s1.dqnLocked = s.dqnLocked)
-    (hth : thOK th' = true)
+    (hth : thOKW th' = true)
     (hloc : locOK s1.queue s1.nc s1.qm t th')
     (hoth : (s1.queue = s.queue ∧ s1.qm = s.qm ∧ (s.nc ≠ 0 → s1.nc ≠ 0)) ∨ s.qm = none ∨ s.qm = some t) :
     J0 (setT s1 t th') := by
@@ -194,7 +194,7 @@ theorem key_setT {s : State} (hk : Key s) {t : Tid} {th : Thread} (hg : getT s t
 theorem J_setT {s : State} (hJ : J s) {t : Tid} {th : Thread} (hg : getT s t = some th)
     (s1 : State) (th' : Thread)
     (hthr : s1.threads = s.threads) (hlk : s1.dqnLocked = s.dqnLocked)
-    (hth : thOK th' = true)
+    (hth : thOKW th' = true)
     (hloc : locOK s1.queue s1.nc s1.qm t th')
     (hoth : (s1.queue = s.queue ∧ s1.qm = s.qm ∧ (s.nc ≠ 0 → s1.nc ≠ 0)) ∨ s.qm = none ∨ s.qm = some t)
     (hkey : holder th' = true ∨ ¬ cond s1 ∨
@@ -206,11 +206,11 @@ theorem J_setT {s : State} (hJ : J s) {t : Tid} {th : Thread} (hg : getT s t = s
 /-- a notifying step: `notify_one`, then thread `t` (which is not parked) finishes its call -/
 theorem J_notify {s : State} (hJ : J s) {t : Tid} {th : Thread} (hg : getT s t = some th)
     (hnp : isParked th = false) (ch : Nat) (th' : Thread)
-    (hth : thOK th' = true) (hpc : th'.pc = .idle) :
+    (hth : thOKW th' = true) (hpc : th'.pc = .idle) :
     J (setT (notifyOne s ch) t th') := by
   have hloc' : ∀ q n m, locOK q n m t th' := by
     intro q n m; apply locOK_of_not_holds; rw [hpc]; rfl
-  rcases notifyOne_cases s ch with ⟨hnone, heq⟩ | ⟨w, thw, timed, hw, hwpc, heq⟩
+  rcases notifyOne_casesW s ch with ⟨hnone, heq⟩ | ⟨w, thw, timed, hw, hwpc, heq⟩
   · rw [heq]
     refine ⟨J0_setT hJ.base hg s th' rfl rfl hth (hloc' _ _ _) (Or.inl ⟨rfl, rfl, id⟩), ?_⟩
     intro _ hp
@@ -230,7 +230,7 @@ theorem J_notify {s : State} (hJ : J s) {t : Tid} {th : Thread} (hg : getT s t =
     have hthw := hJ.base.th w thw hw
     have hJ1 : J0 (setT s w { thw with pc := .woken timed false }) := by
       refine J0_setT hJ.base hw s _ rfl rfl ?_ (locOK_of_not_holds rfl) (Or.inl ⟨rfl, rfl, id⟩)
-      simpa [thOK, hwpc, isWaitPc, pcModeOK] using hthw
+      simpa [thOKW, hwpc, isWaitPc, pcModeOK] using hthw
     have hg1 : getT (setT s w { thw with pc := .woken timed false }) t = some th := by
       rw [getT_setT_ne _ (Ne.symm hwt)]; exact hg
     refine ⟨J0_setT hJ1 hg1 _ th' rfl rfl hth (hloc' _ _ _) (Or.inl ⟨rfl, rfl, id⟩), ?_⟩
